@@ -39,6 +39,7 @@ def _worker(ex, entry, t_end, outdir, depth=0):
             give = ex.stack[:n]
             pid = os.fork()
             if pid == 0:
+                TOKEN[0] = True
                 try:
                     _reset(ex); ex.stack = give
                     _worker(ex, entry, t_end, outdir, depth + 1)
@@ -48,12 +49,17 @@ def _worker(ex, entry, t_end, outdir, depth=0):
                 try:
                     with open(os.path.join(outdir, 'r_%d.pkl' % os.getpid()), 'wb') as f: pickle.dump(res, f)
                 finally:
-                    SEM.release()
+                    if TOKEN[0]: SEM.release()
                     os._exit(0)
             ex.stack = ex.stack[n:]
             kids.append(pid); last = time.time()
+    # own work done: give the core token back before waiting for the helpers (an idle parent must not hold a core)
+    if SEM is not None and TOKEN[0]:
+        SEM.release(); TOKEN[0] = False
     for pid in kids:
         os.waitpid(pid, 0)
+
+TOKEN = [False]    # does this process currently hold a core token?
 
 def explore_entry(module, entry, opts, budget_s, split=0):
     """run one entry; with split>0 pending states are handed to helper processes whenever a core token is free"""
@@ -110,14 +116,15 @@ def run_jobs(jobs, nproc):
             pid = os.fork()
             if pid == 0:
                 os.close(r)
-                if SEM is not None: SEM.acquire()
+                if SEM is not None:
+                    SEM.acquire(); TOKEN[0] = True
                 try: res = fn()
                 except BaseException:
                     res = dict(error=traceback.format_exc())
                 try:
                     with os.fdopen(w, 'wb') as f: pickle.dump(res, f)
                 finally:
-                    if SEM is not None: SEM.release()
+                    if SEM is not None and TOKEN[0]: SEM.release()
                     os._exit(0)
             os.close(w)
             running[pid] = (key, r)
